@@ -86,6 +86,15 @@ def filesOf (backend : String) : Except String (List (String × Template) × Lis
   else if backend == "cms_miniaod" then pure (cms_miniaodFiles, cms_miniaodLenient, cmsDocs)
   else throw s!"unknown backend {backend}"
 
+def placedOf (backend : String) : Option (List String) := if backend == "atlas" then atlasPlaced else none
+
+def lostWhy (fields : List String) (placed : Option (List String)) (bs : List Block) : String :=
+  match placed with
+  | none => ""
+  | some ps =>
+    let lost := bs.flatMap fun b => (fields.filter fun f => !(b.get f).isEmpty && !ps.contains f).map fun f => s!"{f} of block {toS b.name}"
+    s!"lines in a field that has no documented place in the package: {lost}"
+
 /-- strict layouts first, lenient ones as fall-back witnesses -/
 def witnessFor (strict lenient : List (String × Template)) : List (String × Layout) :=
   witOf strict ++ witOf lenient
@@ -224,15 +233,18 @@ def handle (line : String) : String :=
           let mds ← parseMds j
           let base ← parseBase j
           let wit := witnessFor strict lenient
+          let placed := placedOf backend
           let o ← j.getObjVal? "outcome"
           match o.getObjVal? "files" with
           | .error _ =>
-            if decide (SpecOutcome injectFields docs wit mds base .refused) then pure (answer true "")
+            if decide (SpecOutcome injectFields docs placed wit mds base .refused) then pure (answer true "")
             else pure (answer false "refused although every dictionary is well formed and no two blocks conflict")
           | .ok fj =>
             let out ← parseFiles fj
-            if decide (SpecOutcome injectFields docs wit mds base (.files out)) then pure (answer true "")
+            if decide (SpecOutcome injectFields docs placed wit mds base (.files out)) then pure (answer true "")
             else if decide (Bad injectFields mds) then pure (answer false ("package generated although " ++ badWhy injectFields mds))
+            else if !decide (NoLostLines injectFields placed (effective injectFields mds)) then
+              pure (answer false (lostWhy injectFields placed (effective injectFields mds)))
             else
               let info := expectedInfo base (effective injectFields mds)
               let whys := docs.filterMap fun d =>
